@@ -134,41 +134,49 @@ Lemma field_set_at_cons : forall c r name v n k,
   field (set_at (c :: r) name v n) k =
   match field n k with
   | None => None
-  | Some x => Some (if String.eqb k c then match x with VNode m => VNode (set_at r name v m) | y => y end else x)
+  | Some x => Some (if String.eqb k c then descend (set_at r name v) x else x)
   end.
 Proof.
-  intros c r name v [cl fs] k. simpl. unfold field. simpl.
-  apply (assoc_map_at c (fun x => match x with VNode m => VNode (set_at r name v m) | y => y end)).
+  intros c r name v [cl fs] k. unfold field. cbn [set_at fields].
+  apply (assoc_map_at c (descend (set_at r name v))).
 Qed.
+
+Lemma lookup_cons : forall n c r k,
+  lookup n (c :: r) k = match field n c with Some (VNode m) => lookup m r k | _ => None end.
+Proof. reflexivity. Qed.
+Lemma subnode_cons : forall n c r,
+  subnode n (c :: r) = match field n c with Some (VNode m) => subnode m r | _ => None end.
+Proof. reflexivity. Qed.
 
 (* inside the group q the assignment is the one of [set] on that group *)
 Theorem set_at_inside : forall q name v n m p k,
   subnode n q = Some m -> lookup (set_at q name v n) (q ++ p) k = lookup (set name v m) p k.
 Proof.
-  intros q name v. induction q as [|c r IH]; intros n m p k Hs; simpl in *.
-  - inversion Hs. reflexivity.
-  - rewrite field_set_at_cons.
+  intros q name v. induction q as [|c r IH]; intros n m p k Hs.
+  - simpl in Hs. inversion Hs. reflexivity.
+  - rewrite subnode_cons in Hs. rewrite <- app_comm_cons. rewrite lookup_cons.
+    rewrite field_set_at_cons.
     destruct (field n c) as [x|] eqn:Ef; [|discriminate].
     rewrite String.eqb_refl. destruct x; try discriminate.
-    apply IH. exact Hs.
+    unfold descend. apply IH. exact Hs.
 Qed.
 
 (* every field that is neither inside q nor on the way to it keeps its value *)
 Theorem set_at_outside : forall q name v p n k,
   untouched q p k = true -> lookup (set_at q name v n) p k = lookup n p k.
 Proof.
-  intros q name v. induction q as [|c r IH]; intros p n k Hu; simpl in Hu; [discriminate|].
+  intros q name v. induction q as [|c r IH]; intros p n k Hu; [discriminate|].
   destruct p as [|d s].
-  - simpl. rewrite field_set_at_cons. destruct (field n k) as [x|]; [|reflexivity].
+  - simpl in Hu. change (lookup (set_at (c :: r) name v n) [] k) with (field (set_at (c :: r) name v n) k).
+    change (lookup n [] k) with (field n k).
+    rewrite field_set_at_cons. destruct (field n k) as [x|]; [|reflexivity].
     apply negb_true_iff in Hu. rewrite Hu. reflexivity.
-  - change (lookup (set_at (c :: r) name v n) (d :: s) k)
-      with (match field (set_at (c :: r) name v n) d with
-            | Some (VNode m) => lookup m s k | _ => None end).
-    rewrite field_set_at_cons. simpl.
+  - rewrite !lookup_cons. rewrite field_set_at_cons.
     destruct (field n d) as [x|]; [|reflexivity].
+    simpl in Hu.
     destruct (String.eqb d c) eqn:Edc.
     + apply String.eqb_eq in Edc. subst d. rewrite String.eqb_refl in Hu.
-      destruct x; try reflexivity. apply IH. exact Hu.
+      destruct x; try reflexivity. unfold descend. apply IH. exact Hu.
     + destruct x; reflexivity.
 Qed.
 
@@ -204,9 +212,12 @@ Lemma mp_default_post_init_fixpoint : node_eqb (post_init mp_default) mp_default
 Proof. vm_compute. reflexivity. Qed.
 
 (* no path of the generated tree passes through a field called like a base field *)
+Definition avoids (k : string) (p : list string) : bool := negb (existsb (String.eqb k) p).
 Lemma mp_default_paths_avoid_base :
-  forallb (fun p => forallb (fun k => negb (existsb (String.eqb k) p)) base_names) (all_paths mp_default) = true.
-Proof. vm_compute. reflexivity. Qed.
+  forallb (avoids "time_begin") (all_paths mp_default) = true /\
+  forallb (avoids "time_end") (all_paths mp_default) = true /\
+  forallb (avoids "antialiased") (all_paths mp_default) = true.
+Proof. repeat split; vm_compute; reflexivity. Qed.
 
 Lemma existsb_eqb_In : forall k p, existsb (String.eqb k) p = false -> ~ In k p.
 Proof.
@@ -223,9 +234,9 @@ Theorem default_window_everywhere : forall tb te p, In p (all_paths mp_default) 
 Proof.
   intros tb te p Hin t.
   pose proof mp_default_groups_ok as Hok. rewrite forallb_forall in Hok. specialize (Hok p Hin).
-  pose proof mp_default_paths_avoid_base as Hav. rewrite forallb_forall in Hav. specialize (Hav p Hin).
-  simpl in Hav. repeat rewrite andb_true_iff in Hav. destruct Hav as [Hb [He _]].
-  apply negb_true_iff in Hb. apply negb_true_iff in He.
+  destruct mp_default_paths_avoid_base as [Hb [He _]].
+  rewrite forallb_forall in Hb, He. specialize (Hb p Hin). specialize (He p Hin).
+  unfold avoids in Hb, He. apply negb_true_iff in Hb. apply negb_true_iff in He.
   apply existsb_eqb_In in Hb. apply existsb_eqb_In in He.
   unfold group_ok in Hok. destruct (subnode mp_default p) as [m|] eqn:Hs; [|discriminate].
   apply andb_true_iff in Hok. destruct Hok as [_ Hok]. simpl in Hok.
@@ -240,9 +251,8 @@ Proof.
   - rewrite set_lookup by exact He.
     rewrite (set_declared "time_begin" (VZ tb) p mp_default xb Hb) by (rewrite Hl; exact Fb).
     reflexivity.
-  - apply (set_declared "time_end" (VZ te) p _ (push "time_end" (VZ te) xe)); [exact He|].
-    rewrite set_lookup by exact Hb. rewrite Hl, Fe. simpl.
-    destruct xe; reflexivity.
+  - apply (set_declared "time_end" (VZ te) p _ (push "time_begin" (VZ tb) xe)); [exact He|].
+    rewrite set_lookup by exact Hb. rewrite Hl, Fe. reflexivity.
 Qed.
 
 (* non-vacuity: the generated tree has nested groups three levels deep that are reached *)
